@@ -114,6 +114,10 @@ pub fn run_one_p<'src, I: HInput<'src>, E: HErr<'src, I>, P: Parser<'src, I, Val
     input: I,
 ) -> String {
     let mut out = String::new();
+    let tracking = TRK.with(|t| t.borrow().enabled);
+    if tracking {
+        trk_reset();
+    }
     let r = catch_unwind(AssertUnwindSafe(|| {
         let mut st = Insp::default();
         let mut s = String::new();
@@ -143,6 +147,15 @@ pub fn run_one_p<'src, I: HInput<'src>, E: HErr<'src, I>, P: Parser<'src, I, Val
             out.push_str("P ");
             LAST_PANIC.with(|p| out.push_str(&p.borrow()));
         }
+    }
+    if tracking {
+        // everything the parse produced (output, errors) has been dropped by now
+        use std::fmt::Write;
+        TRK.with(|t| {
+            let t = t.borrow();
+            let _ = write!(out, " ; D created={} cloned={} dropped={} live={} dd={}", t.created, t.cloned, t.dropped,
+                           t.live.len(), if t.double { 1 } else { 0 });
+        });
     }
     out
 }
